@@ -542,3 +542,41 @@ def reach_with_oracle(fn, oracle, start=0):
         for s_ in succs:
             st.append((s_, nenv))
     return seen
+
+
+def calls_incl_closures(prog, f, pred):
+    """(block, terminator) of every call in f for which pred(callee terminator) holds, plus every call in f that is
+    *handed a closure* (defined in f) whose body - or a closure nested in it - makes such a call: `opt.map_or(d, |s|
+    self.dequeue(s))` counts as a place where f calls dequeue, at the block of the map_or call."""
+    from .core import Resolver, norm_name
+    out = []
+    clos = {c.norm: c for c in prog.closures_of(f)}
+
+    def body_calls(c, seen):
+        if c.norm in seen:
+            return False
+        seen.add(c.norm)
+        for _, t in c.calls():
+            if pred(t):
+                return True
+        for _b, _s, st in c.all_rvalues():
+            rv = st["rv"]
+            if rv["k"] == "agg" and "clo" in rv:
+                g = clos.get(norm_name(rv["clo"])) or prog.fn_opt(norm_name(rv["clo"]))
+                if g is not None and body_calls(g, seen):
+                    return True
+        return False
+    for bi, t in f.calls():
+        if pred(t):
+            out.append((bi, t))
+            continue
+        for a in t["args"]:
+            if not is_place(a):
+                continue
+            r = Resolver(f).root(a)
+            if r[0] == "agg" and "clo" in r[1][2]:
+                c = prog.fn_opt(norm_name(r[1][2]["clo"]))
+                if c is not None and body_calls(c, set()):
+                    out.append((bi, t))
+                    break
+    return out
